@@ -242,4 +242,88 @@ theorem shapePool2d_length (s k st : List Nat) (c : Bool) (r : Shape) (h : NN.sh
       simp only [List.length_append, List.length_take, List.length_cons, List.length_nil]; omega
     · cases h
 
+/-! ### index maps: the source index handed to the operand has at most `len(src_shape)` entries -/
+
+theorem setPy_length {α} (l : List α) (i : Int) (v : α) : (setPy l i v).length = l.length := by
+  simp only [setPy]; split <;> simp
+
+theorem addWindowOffsets_length (res : Idx) (axes : List Int) (offs : List Nat) (r : Idx)
+    (h : addWindowOffsets res axes offs = some r) : r.length = res.length := by
+  induction axes generalizing res offs with
+  | nil => simp only [addWindowOffsets, Option.some.injEq] at h; subst h; rfl
+  | cons ax axes ih =>
+    cases offs with
+    | nil => simp only [addWindowOffsets, Option.some.injEq] at h; subst h; rfl
+    | cons o offs =>
+      simp only [addWindowOffsets] at h
+      split at h
+      · rw [ih _ _ h, setPy_length]
+      · cases h
+
+theorem indexSlidingWindow_length_le (d : Idx) (srcDim : Nat) (axes : Option (List Int)) (r : Idx)
+    (h : indexSlidingWindow d srcDim axes = some r) : r.length ≤ srcDim := by
+  cases axes with
+  | none =>
+    simp only [indexSlidingWindow, Option.some.injEq] at h; subst h
+    simp only [List.length_zipWith, List.length_take]; omega
+  | some l =>
+    simp only [indexSlidingWindow] at h
+    rw [addWindowOffsets_length _ _ _ _ h, List.length_take]; omega
+
+theorem indexRollLoop_length (shape : Shape) (d : Idx) (axes shifts : List Int) (res r : Idx)
+    (h : indexRollLoop shape d axes shifts res = some r) : r.length = res.length := by
+  induction axes generalizing shifts res with
+  | nil => simp only [indexRollLoop, Option.some.injEq] at h; subst h; rfl
+  | cons ax axes ih =>
+    cases shifts with
+    | nil => simp [indexRollLoop] at h
+    | cons sh shifts =>
+      simp only [indexRollLoop] at h
+      split at h
+      · rw [ih _ _ h, setPy_length]
+      · cases h
+
+theorem indexResize_length_le (d : Idx) (src dst : Shape) : (indexResize d src dst).length ≤ src.length := by
+  induction d generalizing src dst with
+  | nil => simp [indexResize]
+  | cons i d ih =>
+    cases src with
+    | nil => simp [indexResize]
+    | cons s src =>
+      cases dst with
+      | nil => simp [indexResize]
+      | cons t dst => simp only [indexResize, List.length_cons]; have := ih src dst; omega
+
+theorem indexExpand_length (r : Idx) (ks sps : List Nat) (q : Idx) (h : indexExpand r ks sps = some q) :
+    q.length = r.length := by
+  induction ks generalizing r sps with
+  | nil => simp only [indexExpand, Option.some.injEq] at h; subst h; rfl
+  | cons k ks ih =>
+    cases sps with
+    | nil => simp only [indexExpand, Option.some.injEq] at h; subst h; rfl
+    | cons sp sps =>
+      simp only [indexExpand] at h
+      split at h
+      · split at h
+        · cases h
+        · rw [ih _ _ h]; simp
+      · cases h
+
+theorem scatterOthers_length' (a1 a2 i n : Nat) (d : Idx) : (scatterOthers a1 a2 i n d).length = n := by
+  induction n generalizing i d with
+  | zero => simp [scatterOthers]
+  | succ n ih =>
+    simp only [scatterOthers]
+    split
+    · simp [ih]
+    · cases d <;> simp [ih]
+
+theorem indexDiagonal_length (s : Shape) (d : Idx) (off : Int) (a1 a2 : Nat) (r : Idx)
+    (h : indexDiagonal s d off a1 a2 = some r) : r.length = s.length := by
+  simp only [indexDiagonal] at h
+  split at h
+  · simp only [Option.some.injEq] at h; subst h
+    simp [scatterOthers_length']
+  · cases h
+
 end NmVerif.CapL
